@@ -266,7 +266,15 @@ class WebSocketFrame(object):
 
     def writeData(self, socket):
 
-        socket.sendall(self.payload)
+        if self.flags.mask:
+            # a frame with the mask bit set carries the payload xor'd
+            # with the masking key. (readData applies the same transform)
+            payload = bytearray(self.payload)
+            for i in range(len(payload)):
+                payload[i] ^= self.masking_key[i%4]
+            socket.sendall(bytes(payload))
+        else:
+            socket.sendall(self.payload)
 
     def __repr__(self):
         opcode = self.flags.opcode.name
